@@ -37,15 +37,25 @@ func ParseYamlInDir(path string, namespaceName string) (*Namespace, error) {
 	var paths []string
 
 	if fileInfo.IsDir() {
-		err := filepath.Walk(path,
-			func(path string, info os.FileInfo, err error) error {
+		// filepath.Walk does not follow symbolic links, not even for its root: a package
+		// directory that is itself a link is walked through its target, and its files keep
+		// the names they have below the directory that was asked for.
+		walkRoot := path
+		if resolved, err := filepath.EvalSymlinks(path); err == nil {
+			walkRoot = resolved
+		}
+		err := filepath.Walk(walkRoot,
+			func(walked string, info os.FileInfo, err error) error {
 				if err != nil {
 					return err
 				}
 				if !info.IsDir() &&
 					(strings.HasSuffix(info.Name(), ".yml") || strings.HasSuffix(info.Name(), ".yaml")) &&
 					info.Name() != packaging.PackageFileName {
-					paths = append(paths, path)
+					if rel, err := filepath.Rel(walkRoot, walked); err == nil && walkRoot != path {
+						walked = filepath.Join(path, rel)
+					}
+					paths = append(paths, walked)
 				}
 				return nil
 			})
